@@ -121,13 +121,20 @@ class Hasher(Pickler):
                     # interactively in __main__
                     setattr(mod, my_name, obj)
 
+    def save_type(self, obj):
+        # type(None), type(NotImplemented) and type(...) cannot be found by
+        # name in the builtins module: the Pickler has a special case for them.
+        if obj in (type(None), type(NotImplemented), type(...)):
+            return Pickler.save_type(self, obj)
+        return self.save_global(obj)
+
     dispatch = Pickler.dispatch.copy()
     # builtin
     dispatch[type(len)] = save_global
     # type
-    dispatch[type(object)] = save_global
+    dispatch[type(object)] = save_type
     # classobj
-    dispatch[type(Pickler)] = save_global
+    dispatch[type(Pickler)] = save_type
     # function
     dispatch[type(pickle.dump)] = save_global
 
